@@ -1,4 +1,5 @@
 import functools
+import os
 from tempfile import SpooledTemporaryFile
 from typing import (
     Any,
@@ -81,6 +82,25 @@ class NextResponse(StreamingResponse):
                 )
             elif message["type"] == "http.response.body":
                 await body.push(message.get("body", b""))
+                if not message.get("more_body", False):
+                    await body.push_eof()
+            elif message["type"] == "http.response.zerocopysend":
+                # The server offered zero-copy send to the inner application:
+                # read the announced part of the file into the cached body.
+                file_descriptor = message["file"]
+                count = message.get("count")
+                if message.get("offset") is not None:
+                    await run_in_threadpool(
+                        os.lseek, file_descriptor, message["offset"], os.SEEK_SET
+                    )
+                while count is None or count > 0:
+                    length = 4096 * 16 if count is None else min(4096 * 16, count)
+                    chunk = await run_in_threadpool(os.read, file_descriptor, length)
+                    if not chunk:
+                        break
+                    await body.push(chunk)
+                    if count is not None:
+                        count -= len(chunk)
                 if not message.get("more_body", False):
                     await body.push_eof()
 
